@@ -117,6 +117,8 @@ async def scenario(net, hyg, plan):
     try:
         await w.server.start("127.0.0.1", 2121)
         server = w.server
+        if plan.get("files"):
+            w.populate({"/big.bin": b"B" * 400000, "/small.txt": b"s"})
         d = Drive(net, w, plan["scripts"], offsets=plan.get("offsets"), cut=plan.get("cut"))
 
         def admitted_now():
